@@ -612,6 +612,76 @@ func C01(c *core.Ctx) {
 			}
 			c.Decide(reach, "R1.4", "name-match-alternative:"+a.Name, p.Pos(fm.Pos()), a.Name+" alone suffices to match", "the match rule requires more than "+a.Name+" (a conjunction where the property states an alternative)")
 		}
+		// and nothing else decides: inside the scan of a node's entries, an entry is left
+		// out only on an edge asserting that the names are NOT equal (reached when
+		// CanBePrefix is not set) — or that it has no in-record, which is nobody to deliver
+		// to. A further filter on entry state (a flag the insertion path does not maintain,
+		// e.g. a stale `satisfied`) withholds Data from a face whose Interest is pending.
+		if len(apps) > 0 {
+			noRec := &core.Atom{Name: "entry has no in-records", Match: func(cond ssa.Value) (int, int) {
+				op, x, y, ok := core.Cmp(cond)
+				if !ok {
+					return 0, 0
+				}
+				l, isLen := core.LenOf(core.StripConv(x))
+				k, isC := core.ConstInt(y)
+				if !isLen || !isC || k != 0 {
+					return 0, 0
+				}
+				if _, isIR := core.FieldOf(l, "inRecords"); !isIR {
+					if cl, isCall := core.Strip(l).(*ssa.Call); !isCall || cl.Call.Method == nil || cl.Call.Method.Name() != "InRecords" {
+						return 0, 0
+					}
+				}
+				switch op {
+				case token.EQL:
+					return 1, -1
+				case token.NEQ, token.GTR:
+					return -1, 1
+				}
+				return 0, 0
+			}}
+			cut, per := core.CutEdges(fm, neg(exact), pos(noRec))
+			_ = per
+			isApp := func(x ssa.Instruction) bool {
+				for _, a := range apps {
+					if a == x {
+						return true
+					}
+				}
+				return false
+			}
+			okOnly := true
+			nIter := 0
+			for _, ap := range apps {
+				h := loopHeader(ap.Block())
+				if h == nil || len(h.Instrs) == 0 {
+					continue
+				}
+				for _, s0 := range h.Succs {
+					if core.ReachAvoiding(fm, s0, map[*ssa.BasicBlock]bool{h: true}, nil) == nil {
+						continue // loop exit
+					}
+					inLoop := s0 == h
+					for _, x := range enclosingLoops(s0) {
+						if x == h {
+							inLoop = true
+						}
+					}
+					if !inLoop {
+						continue
+					}
+					nIter++
+					if cut[core.Edge{From: h, To: s0}] {
+						continue
+					}
+					if core.ReachInstrFrom(core.Point{Block: s0, Idx: 0}, h.Instrs[0], cut, isApp) != nil {
+						okOnly = false
+					}
+				}
+			}
+			c.Decide(okOnly && nIter > 0, "R1.4", "name-match-nothing-else-decides", p.Pos(fm.Pos()), "an entry of a scanned node is left out only when the names differ (or it has no in-record)", "the name match leaves out a PIT entry for a reason other than its name (a filter on entry state): Data is withheld from a face whose Interest is pending — e.g. entries whose satisfied flag is set are skipped although InsertInterest re-uses a lingering satisfied entry for a new Interest without clearing the flag")
+		}
 		// the walk visits every ancestor: loop over parent
 		ok := false
 		core.Instrs(fm, func(in ssa.Instruction) {
